@@ -51,6 +51,9 @@ func Check(c *Case, h *Hist) []Finding {
 			p = "C03"
 		}
 		add(p, "execution hung: Wait/Enqueue did not return and every goroutine is blocked:\n%s", h.Hang)
+		if c.Gate > 0 {
+			add("C09", "Wait did not return although its context was cancelled while a job was still running:\n%s", h.Hang)
+		}
 		return out
 	}
 	if l, _ := h.Livelock.Load().(string); l != "" {
